@@ -307,7 +307,9 @@ class Report:
             f.write(blob)
         if self.violations <= 20:
             print("VIOLATION property=%s replay=%s" % (self.prop, path), flush=True)
-            print("  why: %s" % (why[:400],), flush=True)
+            # printable ASCII only: inputs may hold control bytes and the line is read by tools
+            shown = "".join(ch if 32 <= ord(ch) < 127 else "\\x%02x" % (ord(ch) & 0xFF) if ord(ch) < 256 else "\\u%04x" % ord(ch) for ch in why[:400])
+            print("  why: %s" % (shown,), flush=True)
 
     def write(self):
         ev = {
